@@ -191,6 +191,7 @@ func (vc *VCache) loadVersionMapping(ancestors []dvid.VersionID, dataname dvid.I
 
 	v := ancestors[0]
 	var splits []proto.SupervoxelSplitOp
+	selfMapped := make(map[uint64]struct{}) // mutation ids whose mapping op maps a supervoxel to its own id
 	numMsgs := map[string]uint64{
 		"Mapping":         0,
 		"Split":           0,
@@ -211,6 +212,9 @@ func (vc *VCache) loadVersionMapping(ancestors []dvid.VersionID, dataname dvid.I
 			mapped := op.GetMapped()
 			for _, supervoxel := range op.GetOriginal() {
 				vc.setMapping(v, supervoxel, mapped)
+				if supervoxel == mapped {
+					selfMapped[op.GetMutid()] = struct{}{}
+				}
 			}
 
 		case proto.SplitOpType:
@@ -264,7 +268,11 @@ func (vc *VCache) loadVersionMapping(ancestors []dvid.VersionID, dataname dvid.I
 				continue
 			}
 			// We don't set op.Target to 0 because it could be the ID of a supervoxel.
-			vc.setMapping(v, op.Newlabel, 0)
+			// Nor op.Newlabel if it is one of the renumbered body's own supervoxels, which
+			// the mapping op of this mutation just mapped to itself.
+			if _, isSupervoxel := selfMapped[op.Mutid]; !isSupervoxel {
+				vc.setMapping(v, op.Newlabel, 0)
+			}
 
 		default:
 		}
